@@ -5,7 +5,7 @@ from __future__ import annotations
 from ..linform import lin, show_lin
 from ..program import AnalysisError
 from ..rules import calls, is_call, is_mcall, mcalls, mentions, mentions_any
-from ..terms import C, Evaluator, G, P, is_t, mk_proj, show, subterms
+from ..terms import C, Evaluator, G, P, is_t, mk_proj, show, subterms, mk_cmp, mk_phi
 from .common import main_ret, Obs, arms_of, call0, choices_of, cond_has, ctor_fields, is_zero, retval_of, score_of, tuple_n
 from .distribution import is_tag
 
@@ -81,7 +81,7 @@ def analyse(obs: Obs, prog):
         obs.add(props | {"C01", FAMILY}, "TRACE-ARGS", inst, f.get("args") == args_term, derived=f.get("args"), expected=show(args_term), where=where)
         obs.add(props | {"C01", "C02", "C11"}, "SCORE-AGG", inst + "/score", f.get("score") == jsum(stack(score_of(inner_elem))), derived=f.get("score"), expected="sum over elements of the element trace's score", where=where)
         chm = f.get("chm")
-        okc = is_t(chm, "phi") and chm[1] == ("cmp", "==", length, C(0)) and is_call(chm[2], "empty") and chm[3] == stack(choices_of(inner_elem))
+        okc = is_t(chm, "phi") and chm[1] == mk_cmp("==", length, C(0)) and is_call(chm[2], "empty") and chm[3] == stack(choices_of(inner_elem))
         obs.add(props | {"C01", "C11", "C17"}, "TRACE-CHOICES", inst + "/choices", okc, derived=chm, expected="length == 0 ? empty : vmap(get_choices)(element traces)", where=where)
         obs.add(props | {"C01", "C11"}, "TRACE-INNER", inst + "/inner", f.get("inner") == stack(inner_elem), derived=f.get("inner"), expected="the stacked element traces", where=where)
         obs.add(props | {"C11"}, "TRACE-LENGTH", inst + "/length", f.get("dim_length") == length, derived=f.get("dim_length"), expected=show(length), where=where)
